@@ -276,7 +276,7 @@ func (x *Exec) builtin(s *State, v *ssa.Call, b *ssa.Builtin) bool {
 			dom, _ := w.mapArrays(at)
 			s.set(v, s.mapLen(mkSelect(s.H(dom), a), a))
 		case *types.Basic:
-			l := app("Int", "str.len", a)
+			l := app("Int", "strlen!", a)
 			s.set(v, l)
 		default:
 			x.unsup("len of %s", args[0].Type())
@@ -311,8 +311,10 @@ func (x *Exec) builtin(s *State, v *ssa.Call, b *ssa.Builtin) bool {
 	return true
 }
 
-// appendOp models append faithfully: in place when capacity allows, else a
-// fresh backing store with the old elements copied.
+// appendOp models append: in place when capacity allows, else into a fresh
+// backing store that holds a copy of the old elements at the same offset.
+// (Abstraction: the unused capacity of a fresh backing store is unspecified
+// rather than zero; dig never reslices beyond len.)
 func (x *Exec) appendOp(s *State, v *ssa.Call) {
 	w := x.w
 	a := s.valTerm(v.Call.Args[0])
@@ -330,31 +332,35 @@ func (x *Exec) appendOp(s *State, v *ssa.Call) {
 	H := s.H(arr)
 	n := sLen(b)
 	newLen := add(sLen(a), n)
-	// the result
-	inPlace := le(newLen, sCap(a))
-	ra := s.fresh("append.arr", "Int")
-	rc := s.fresh("append.cap", "Int")
-	// fresh backing store when not in place
+	offA := sOff(a)
+	inPlace := mkAnd(le(newLen, sCap(a)), mkNot(mkEq(sArr(a), intLit(0))))
+	inPlace = s.define("append.inplace", inPlace)
 	freshArr := s.fresh("append.new", "Int")
 	s.assume(app("Bool", ">", freshArr, s.alloc))
 	s.alloc = freshArr
-	s.assume(mkEq(ra, mkIte(mkAnd(inPlace, mkNot(mkEq(sArr(a), intLit(0)))), sArr(a), freshArr)))
-	s.assume(mkIte(mkEq(ra, freshArr), app("Bool", ">=", rc, newLen), mkEq(rc, sCap(a))))
-	ro := mkIte(mkEq(ra, freshArr), intLit(0), sOff(a))
-	ro = s.define("append.off", ro)
-	res := mkSlice(ra, ro, newLen, rc)
-	// new contents of row ra: prefix from a (if moved), then elements of b
-	nrow := s.fresh("append.row", arraySort("Int", w.sortOf(st.Elem())))
+	ra := s.define("append.arr", mkIte(inPlace, sArr(a), freshArr))
+	rc := s.fresh("append.cap", "Int")
+	s.assume(mkIte(inPlace, mkEq(rc, sCap(a)), app("Bool", ">=", rc, newLen)))
+	res := mkSlice(ra, offA, newLen, rc)
 	oldRowA := mkSelect(H, sArr(a))
 	rowB := mkSelect(H, sArr(b))
-	tgtOld := mkSelect(H, ra)
-	// quantified description of the new row
-	j := "j!q"
-	s.assume(Term{fmt.Sprintf("(forall ((%s Int)) (= (select %s %s) (ite (and (<= %s %s) (< %s %s)) (select %s (+ %s (- %s %s))) (ite (and (<= %s %s) (< %s %s)) (select %s (+ %s (- %s %s))) (select %s %s)))))",
-		j, nrow.S, j,
-		add(ro, sLen(a)).S, j, j, add(ro, newLen).S, rowB.S, sOff(b).S, j, add(ro, sLen(a)).S,
-		ro.S, j, j, add(ro, sLen(a)).S, oldRowA.S, sOff(a).S, j, ro.S,
-		mkIte(mkEq(ra, freshArr), Term{fmt.Sprintf("((as const %s) %s)", sortText(nrow.Sort), w.zeroOf(st.Elem()).S), nrow.Sort}, tgtOld).S, j), "Bool"})
+	rowSort := arraySort("Int", w.sortOf(st.Elem()))
+	// base row: the old row itself (in place) or a copy of its live part
+	cp := s.fresh("append.copy", rowSort)
+	s.assume(Term{fmt.Sprintf("(forall ((p!q Int)) (! (=> (and (<= %s p!q) (< p!q %s)) (= (select %s p!q) (select %s p!q))) :pattern ((select %s p!q)) :qid appendcopy))",
+		offA.S, add(offA, sLen(a)).S, cp.S, oldRowA.S, cp.S), "Bool"})
+	base := mkIte(inPlace, oldRowA, cp)
+	var nrow Term
+	if n.S == "1" {
+		nrow = mkStore(base, add(offA, sLen(a)), mkSelect(rowB, elemIndex(sOff(b), intLit(0))))
+	} else {
+		nrow = s.fresh("append.row", rowSort)
+		pv := Term{"p!q", "Int"}
+		start := add(offA, sLen(a))
+		fromB := mkSelect(rowB, elemIndex(sOff(b), sub(pv, start)))
+		body := mkIte(mkAnd(le(start, pv), lt(pv, add(offA, newLen))), fromB, mkSelect(base, pv))
+		s.assume(Term{fmt.Sprintf("(forall ((p!q Int)) (! (= (select %s p!q) %s) :pattern ((select %s p!q)) :qid append))", nrow.S, body.S, nrow.S), "Bool"})
+	}
 	s.dirty[arr] = true
 	s.setH(arr, mkStore(H, ra, nrow))
 	s.set(v, res)
@@ -732,11 +738,10 @@ func (x *Exec) siteAsserts(s *State, calleeKey string, callInstr ssa.Instruction
 		return
 	}
 	env := x.entryEnv(s)
-	// callee's actual arguments are visible as $recv, $arg0, $arg1 ...
-	for k, v := range calleeEnv.vars {
-		_ = k
-		_ = v
+	if li := x.loopsOf(s.frame.fn).inLoop(s.frame.block); li != nil {
+		env = x.loopEnv(s, li)
 	}
+	// callee's actual arguments are visible as $recv, $arg0, $arg1 ...
 	x.bindCallArgs(env, s, callInstr)
 	for _, cl := range cls {
 		t, err := env.evalBool(cl.Expr, cl.Src)
